@@ -91,6 +91,52 @@ def event_is_rest(ev):
         is_rest_value(v) for k, v in ev.items() if k != 'scale')
 
 
+# where a Rest object sits (evidence / mechanism keys): the keys every reader
+# thinks of first (the duration and the pitch source keys) and all the others
+REST_KEY_CLASSES = {
+    'dur': 'dur-or-pitch-source', 'delta': 'dur-or-pitch-source',
+    'degree': 'dur-or-pitch-source', 'note': 'dur-or-pitch-source',
+    'midinote': 'dur-or-pitch-source', 'freq': 'dur-or-pitch-source',
+    'stretch': 'timing-modifier', 'legato': 'timing-modifier',
+    'sustain': 'timing-modifier',
+    'mtranspose': 'pitch-modifier', 'gtranspose': 'pitch-modifier',
+    'root': 'pitch-modifier', 'octave': 'pitch-modifier',
+    'ctranspose': 'pitch-modifier', 'harmonic': 'pitch-modifier',
+    'detune': 'pitch-modifier',
+    'amp': 'amplitude', 'db': 'amplitude', 'velocity': 'amplitude',
+}
+
+
+def rest_key_classes(ev):
+    """Classes of the keys of `ev` that hold a Rest value ('control': any key
+    that takes no part in a chain, e.g. pan or an instrument control)."""
+    return sorted({REST_KEY_CLASSES.get(k, 'control') for k, v in ev.items()
+                   if k != 'scale' and is_rest_value(v)})
+
+
+# ---------------------------------------------------------------- histories
+
+def apply_mutation(ev, op):
+    """State of the explicit keys of an event after one edit, whatever dict
+    method performs it (an event IS a dict: Python's mapping semantics are the
+    specification).  op: {'m': mutator name, 'del': [keys], 'set': {key:
+    value}, 'n': number of popitem calls}; order: clear, popitem, deletions,
+    assignments.  `setdefault` keeps the value of a key that is present."""
+    m = op['m']
+    out = {} if m in ('clear', 'clear-update') else dict(ev)
+    if m == 'popitem':
+        for _ in range(op.get('n', 1)):
+            if out:
+                out.pop(list(out)[-1])      # LIFO (Python >= 3.7)
+    for k in op.get('del') or []:
+        out.pop(k, None)
+    for k, v in (op.get('set') or {}).items():
+        if m == 'setdefault' and k in out:
+            continue
+        out[k] = v
+    return out
+
+
 # ---------------------------------------------------------------- scales
 
 def scale_parts(scale):
